@@ -26,7 +26,6 @@ FLOW = ["flow/action.cpp"] + ["flow/actions/%s.cpp" % x for x in
 UTIL = ["util/variables.cpp", "util/string.cpp", "util/json.cpp"]
 SRC = vlib.BASE_SRC + EVENT + FLOW + UTIL
 
-MC_ACTIONS = ["DoStart", "DoPause", "DoResume", "DoStop", "DoReset", "Tick", "LeafCompletes", "ActionTimeout", "Deliver"]
 ASFOUND = [("par_drop", "PauseHoldsResults"), ("stop_blk", "NoStaleNotification"), ("held_stale", "NoStaleNotification"),
            ("tmo_child", "NothingLeftRunning")]
 
@@ -155,14 +154,16 @@ def run_checked(ctx):
 
     # ---- 1. the design: the intended model satisfies every clause for all enumerated programs -------------------------
     pw = write_progs(ctx, "wit.json", wit)
-    ctx.tlc_mc("Flow", "MC_ActionTree.tla", "MC_cov.cfg", env={"PROGS": pw}, required_actions=MC_ACTIONS, label="MC cov (witness programs)")
+    # vacuity guard: the postcondition AllActionsTaken of MC_cov.cfg fails (-> infrastructure error) when a kind of step never occurs
+    ctx.tlc_mc("Flow", "MC_ActionTree.tla", "MC_cov.cfg", env={"PROGS": pw}, coverage=False, workers=1,
+               label="MC witness programs + vacuity guard (every kind of step taken)")
     d1 = P.enum_depth1(P.LEAVES_FULL, 3)                      # every depth-1 tree, <= 3 leaves, 7 leaf variants
     d1b = P.enum_depth1(P.LEAVES_SMALL, 4)                    # depth-1 trees with 4 leaves over 4 leaf variants
     d1b = [t for t in d1b if P.nleaves(t) == 4]
-    d2 = P.sample_depth2(rnd, 250 if quick else 5000)
+    d2 = P.sample_depth2(rnd, 170 if quick else 5000)
     if quick:
-        s1 = rnd.sample(d1, 260) + rnd.sample(d1b, 40)
-        tmo = P.with_timeouts(rnd.sample(d1, 60) + rnd.sample(d2, 40), rnd)
+        s1 = rnd.sample(d1, 190) + rnd.sample(d1b, 30)
+        tmo = P.with_timeouts(rnd.sample(d1, 50) + rnd.sample(d2, 30), rnd)
         mc_sets = [("d1", s1 + tmo), ("d2", d2)]
     else:
         tmo = P.with_timeouts(rnd.sample(d1, 600) + rnd.sample(d2, 600), rnd)
